@@ -137,4 +137,25 @@ def restoreWork (w : WS) : List Bytes → Res (List Entry)
       let here := if asDir then IndexOps.byDir w.index p else w.index.filter (fun e => e.path == p)
       (restoreWork w rest).map (here ++ ·)
 
+/-- `Index.Reset(hash)`: commit → its tree → `walkTree` → `getEntriesFromTree`; the new staging area -/
+def resetEntries (H : HashFn) (s : Store) (depth : Nat) (commitId : Bytes) : Res (List Entry) :=
+  match Store.get H s commitId with
+  | .crash => .crash
+  | .err => .err
+  | .ok (kind, data) =>
+    if kind ≠ .commit then .err else
+    match Commit.parse data with
+    | none => .err
+    | some c =>
+      match c.tree with
+      | none => .crash          -- `GetObject` of a nil hash slices an empty string
+      | some t =>
+        match Store.get H s t with
+        | .crash => .crash
+        | .err => .err
+        | .ok (tk, td) =>
+          match TreeCodec.newTree H s depth tk td with
+          | none => .err
+          | some nodes => .ok (flattenTree nodes)
+
 end Cmds
